@@ -65,7 +65,7 @@ class Native:
         out = []
         for l in r.stdout.strip().split("\n"):
             l = l.strip()
-            if l.startswith(("PANIC", "ERR")):
+            if l.startswith(("PANIC", "ERR", "ARBERR")):
                 out.append(l)
             elif len(l) == 1 and l in "01":
                 out.append(int(l))
@@ -365,6 +365,32 @@ class E2:
         if self.cross:
             self.rep.self_tests["cross_checks"] = self.cross
         self.rep.bounds.setdefault("smt_cap_ms_per_query", self.cap_ms)
+
+
+def canon_fp(t, _cache=None):
+    """Sort the operands of the commutative IEEE operations fp.add / fp.mul (and the product operands of fp.fma) by AST
+    id, recursively.  x*y and y*x are the same binary64 value, but proving that by bit-blasting a 53-bit multiplier is
+    slow and erratic; after canonicalisation the two sides are syntactically equal."""
+    if _cache is None:
+        _cache = {}
+    key = t.get_id()
+    if key in _cache:
+        return _cache[key]
+    if not z3.is_app(t) or t.num_args() == 0:
+        _cache[key] = t
+        return t
+    ch = [canon_fp(c, _cache) for c in t.children()]
+    k = t.decl().kind()
+    if k in (z3.Z3_OP_FPA_MUL, z3.Z3_OP_FPA_ADD) and len(ch) == 3:
+        a, b = sorted(ch[1:], key=lambda x: x.get_id())
+        r = (z3.fpMul if k == z3.Z3_OP_FPA_MUL else z3.fpAdd)(ch[0], a, b)
+    elif k == z3.Z3_OP_FPA_FMA and len(ch) == 4:
+        a, b = sorted(ch[1:3], key=lambda x: x.get_id())
+        r = z3.fpFMA(ch[0], a, b, ch[3])
+    else:
+        r = t.decl()(*ch)
+    _cache[key] = r
+    return r
 
 
 def purify(formulas, names=("ln_real", "exp_real")):
